@@ -647,6 +647,7 @@ func (lvs *ValueStore) GC(ctx context.Context, gcConfig chunks.GCConfig, oldGenR
 			} else {
 				oldGenHasMany = newFileHasMany
 			}
+			verifGCYield("newgen")
 
 			newGenFinalizer, err = lvs.gc(ctx, newGenRefs, oldGenHasMany, gcConfig, collector, newGen, safepoint, lvs.transitionToFinalizingGC, false)
 			if err != nil {
